@@ -3,7 +3,10 @@
 // Injected into package zerolog at check time (overlay); not part of rs/zerolog.
 package zerolog
 
-import "sync"
+import (
+	"bytes"
+	"sync"
+)
 
 // VerifDrainEventPool takes n events out of the event pool and reports how many of them are the SAME object
 // as an earlier one (an object that was put back more than once), then puts each distinct object back once.
@@ -32,4 +35,10 @@ func VerifDrainEventPool(n int) int {
 func VerifC06FreshPools() {
 	eventPool = &sync.Pool{New: func() interface{} { return &Event{buf: make([]byte, 0, 500)} }}
 	arrayPool = &sync.Pool{New: func() interface{} { return &Array{buf: make([]byte, 0, 500)} }}
+}
+
+// VerifC06FreshConsolePool replaces ConsoleWriter's buffer pool by an empty one (same New function as console.go).
+// Only called while no goroutine is logging.
+func VerifC06FreshConsolePool() {
+	consoleBufPool = sync.Pool{New: func() interface{} { return bytes.NewBuffer(make([]byte, 0, 100)) }}
 }
